@@ -667,7 +667,10 @@ class Exec(object):
         e = self.env.E[ename]
         return self.orm.select('x for x in E', {'E': e}, {}).delete(bulk=True)
     def op_objflush(self, label):
-        self.resolve(label).flush(); self.sync_pks()
+        # an object the session has marked for deletion is a legal operand here: obj.flush() sends its DELETE
+        obj = self.refs.get(label)
+        if obj is None or obj._status_ != 'marked_to_delete': obj = self.resolve(label)
+        obj.flush(); self.sync_pks()
     def op_flush(self):
         self.orm.flush(); self.sync_pks()
     def op_commit(self):
